@@ -37,16 +37,19 @@ QReqs == {<<"series", q - QOff, q - QOff>> : q \in QSeries}                     
          \cup {<<"const", q - QOff, q0 - QOff>> : q \in QConst, q0 \in Q0Set}
          \cup {<<"cosphip", sg, 0>> : sg \in {0 - 1, 1}}                                 \* cosphi = +-0.9
          \cup {<<"qv", 0, 0>>}
-\* raise_merge_overlap matters where the PQ and QV ranges can be disjoint: VDE-AR-N 4120 at low p and extreme v
-RmoOf(a) == IF a \in A4120 THEN RmoSet ELSE {TRUE}
+\* raise_merge_overlap matters where the PQ and QV ranges can be disjoint: VDE-AR-N 4120 at low p and extreme v; the
+\* non-default value is explored on one variant (the merge code AR:49-79 is shared by all of them)
+RmoOf(a) == IF a = "a4120v2" THEN RmoSet ELSE {TRUE}
 \* no voltage dependence: one voltage level
 VOf(a) == IF a \in {"none", "statcom"} THEN {5} ELSE VIdx
 \* q_prio is irrelevant without saturation; when nothing applies keep one representative geometry
 \* Sats in the cfg: saturate_sn_mva in bp, + 1 when q_prio = False  (6000 -> <<6000, TRUE>>, 10001 -> <<10000, FALSE>>)
 SatsOK == {st \in {<<x - (x % 2), x % 2 = 0>> : x \in Sats} : st[1] > 0 \/ st[2]}
 GeoOf(a, st) == IF a = "none" /\ st[1] = 0 THEN {1} ELSE Geos
-Configs == UNION {[area : {a}, rmo : RmoOf(a), pi : PIdx, vi : VOf(a), qr : QReqs, sat : {st}, d : Damps, geo : GeoOf(a, st)] :
-                  a \in AreaSet, st \in SatsOK}
+\* raise_merge_overlap = False is read only where the merged range is empty (AR:68-77): explore it exactly there
+OverlapAtStart(c) == LET m == Merged(c.area, PSeries(PLevel(c.area, c.pi)), VLevel(c.area, c.vi)) IN m[1] > m[2]
+Configs == {c \in UNION {[area : {a}, rmo : RmoOf(a), pi : PIdx, vi : VOf(a), qr : QReqs, sat : {st}, d : Damps, geo : GeoOf(a, st)] :
+                         a \in AreaSet, st \in SatsOK} : c.rmo \/ OverlapAtStart(c)}
 
 \* reg: where the first request of the main element lies relative to the area (coverage of inside / above / below)
 Init == /\ cfg \in Configs /\ el = El0(cfg) /\ prev = El0(cfg) /\ k = 0
